@@ -374,6 +374,23 @@ def r4_rewrite_impls(ctx, F):
                           bad='<%s as Rewrite>::rewrite does not rewrite field `%s%s` of type %s (it is copied or '
                               'cloned as is): process ids inside it keep their old values while the rest of '
                               'the state is permuted' % (t['path'], (vname + '::') if vname else '', f['name'], f['ty']))
+        if adt['kind'] == 'Enum' and len(adt['variants']) > 1:
+            # a rewrite renames process ids inside a value: an enum value keeps its variant. With self constrained
+            # to one variant, every value of the type that is built (and can be returned) has that variant
+            sws = [sw for sw in nb.switches if sw.kind == 'variant' and noref(sw.on).kind == 'arg' and
+                   noref(sw.on).key == 1 and not noref(sw.on).fields()]
+            if sws:
+                for var in adt['variants']:
+                    live = nb.reach_under([(sws, var['name'])], [0])
+                    built = set(st['rv'].get('variant') for (i, si, st) in nb.assigns(
+                        lambda st: st['rv']['k'] == 'agg' and st['rv'].get('adt') == t['path']) if i in live)
+                    wrong = sorted(x for x in built if x != var['name'])
+                    ctx.check(not wrong, rule, '%s::%s-keeps-its-variant' % (t['path'], var['name']), body,
+                              good='a %s stays a %s under rewrite' % (var['name'], var['name']),
+                              bad='<%s as Rewrite>::rewrite can turn a %s into %s: the rewritten value is not a renaming '
+                                  'of the original, so a state and its "representative" are different states (and states '
+                                  'that differ only in that variant share a representative)' %
+                                  (t['path'], var['name'], wrong))
     if n < 7:
         raise AnchorMissing('expected >= 7 Rewrite impls on local types, found %d' % n)
 
